@@ -89,7 +89,7 @@ Definition cfg_setlist (w : pw) (c : cfg) (name : str) (vs : list value) :=
   with_opt w c name (fun w _ o =>
     if negb (oflag o CFGF_LIST) then (w, o, FAIL)
     else let '(o1, fr) := free_value o in
-         let '(w1, o2) := addlist_internal (log_frees w fr) o1 vs in (w1, o2, OK)).
+         let '(w1, o2) := addlist_internal (log_frees w fr) (o_setf o1 CFGF_MODIFIED) vs in (w1, o2, OK)).
 
 Definition cfg_addlist (w : pw) (c : cfg) (name : str) (vs : list value) :=
   with_opt w c name (fun w _ o =>
